@@ -270,6 +270,25 @@ func (fr *Frame) execCall(c *ssa.CallCommon, pos token.Pos, st *State, instr *ss
 	if fr.canInline(callee) {
 		return fr.inlineCall(callee, args, nil, pos, st)
 	}
+	if vc.eng.inRepo(callee) && len(vc.paramInvs) > 0 {
+		// the callee is verified separately under the type invariants of its parameters: establish them here
+		for i, p := range callee.Params {
+			tmpl, ok := vc.paramInvs[types.TypeString(types.Unalias(p.Type()), nil)]
+			if !ok {
+				continue
+			}
+			c, err := parseClause(strings.ReplaceAll(tmpl, "$p", "zzarg"), "<sweep type invariant>", 0)
+			if err != nil {
+				panic(contractError(err.Error()))
+			}
+			env := fr.baseEnv(st)
+			env.names["zzarg"] = TV{args[i], p.Type()}
+			short := shortFuncName(callee)
+			vc.callCount[short]++
+			vc.addOblig("pre", fmt.Sprintf("%s#pre:%s@%d.inv(%s)", shortFuncName(vc.fn), short, vc.callCount[short], p.Name()), st, fr.evalClause(env, c), pos,
+				"type invariant of argument "+p.Name())
+		}
+	}
 	return fr.externalCall(name, callee.Signature.Results(), st)
 }
 
@@ -387,7 +406,36 @@ func (fr *Frame) inlineCall(fn *ssa.Function, args []Val, binds []Val, pos token
 			sub.vals[fv] = binds[i]
 		}
 	}
-	res, out := sub.run(st.clone())
+	var res []Val
+	var out *State
+	if !vc.eng.inRepo(fn) {
+		// library code may leave the subset (unsafe, runtime internals): fall back to an external call
+		failed := false
+		saveObl, saveLines := len(vc.obligs), len(vc.lines)
+		func() {
+			defer func() {
+				if r := recover(); r != nil {
+					if _, ok := r.(unsupported); ok {
+						failed = true
+						return
+					}
+					if _, ok := r.(error); ok {
+						failed = true
+						return
+					}
+					panic(r)
+				}
+			}()
+			res, out = sub.run(st.clone())
+		}()
+		if failed {
+			vc.obligs = vc.obligs[:saveObl]
+			_ = saveLines
+			return fr.externalCall(fn.String(), fn.Signature.Results(), st)
+		}
+	} else {
+		res, out = sub.run(st.clone())
+	}
 	if out == nil {
 		st.reach = "false"
 		var vals []Val
@@ -444,6 +492,21 @@ func (fr *Frame) applyContract(callee *ssa.Function, ct *Contract, args []Val, a
 	if ct.Trusted {
 		vc.note("trusted contract used: " + ct.Key)
 	}
+	if callee == vc.fn && fr.top {
+		// recursion: the measure must decrease and be bounded below
+		if len(ct.Decreases) == 0 {
+			if strings.HasPrefix(callee.Name(), "lemma") {
+				panic(contractError("recursive lemma " + callee.Name() + " needs a decreases clause"))
+			}
+			vc.note("termination of recursive function " + short + " is not proved (no decreases clause); partial correctness only")
+		}
+		eenv := fr.baseEnv(fr.entry)
+		for i, c := range ct.Decreases {
+			newV := env.eval(c.Expr).term()
+			oldV := eenv.eval(c.Expr).term()
+			vc.addOblig("dec", fmt.Sprintf("%s#dec:rec@%d.%d", shortFuncName(vc.fn), k, i+1), st, and(le("0", oldV), lt(newV, oldV)), pos, c.Text)
+		}
+	}
 	pre := st.clone()
 	// effects
 	mods := fr.evalModifies(env, ct)
@@ -499,7 +562,7 @@ func (fr *Frame) applyMods(st, pre *State, mods []modLoc, pos token.Pos) {
 					fr.safety("frame", st, "false", pos, "")
 				}
 			} else {
-				fr.safety("frame", st, fr.frameGoal(m.root, m.path, m.base), pos, "")
+				fr.safety("frame", st, implies(m.guard, fr.frameGoal(m.root, m.path, m.base)), pos, "")
 			}
 		}
 		for _, h := range vc.heapsUnder(m) {
@@ -547,9 +610,9 @@ func (fr *Frame) execInvoke(c *ssa.CallCommon, pos token.Pos, st *State) Val {
 	if dynTypes == nil {
 		dynTypes = vc.eng.IfaceImpls[ifaceKey(c.Value.Type(), "")]
 	}
-	// 2. contract on the interface method itself
+	// 2. contract on the interface method itself (preferred over the default closed-world split)
 	ikey := "(" + types.TypeString(types.Unalias(c.Value.Type()), nil) + ")." + c.Method.Name()
-	if ct, ok := vc.eng.Contracts[ikey]; ok && dynTypes == nil {
+	if ct, ok := vc.eng.Contracts[ikey]; ok && !dynFromContract {
 		return fr.applyIfaceContract(ct, c, recv, args, pos, st)
 	}
 	if dynTypes != nil {
@@ -562,11 +625,14 @@ func (fr *Frame) execInvoke(c *ssa.CallCommon, pos token.Pos, st *State) Val {
 		var brs []branch
 		var conds []string
 		for _, tn := range dynTypes {
-			tx, err := parseExprString(tn)
-			if err != nil {
-				panic(contractError("bad dyn type " + tn))
+			t := vc.eng.resolveQualifiedType(tn)
+			if t == nil {
+				tx, err := parseExprString(tn)
+				if err != nil {
+					panic(contractError("bad dyn type " + tn))
+				}
+				t = penv.resolveType(tx)
 			}
-			t := penv.resolveType(tx)
 			if t == nil {
 				panic(contractError("unknown dyn type " + tn))
 			}
